@@ -635,9 +635,6 @@ func installFunctions(in *Interp, p *Pkg) {
 			return nil, in.unsure("all? with a special function")
 		}
 		for _, x := range append([]*V(nil), a[1].Elems()...) {
-			if !selfEvaluating(x) {
-				return nil, in.unsure("all?/any? re-evaluates elements")
-			}
 			r, e := in.call(f, x)
 			if e != nil {
 				return nil, e
@@ -660,9 +657,6 @@ func installFunctions(in *Interp, p *Pkg) {
 			return nil, in.unsure("any? with a special function")
 		}
 		for _, x := range append([]*V(nil), a[1].Elems()...) {
-			if !selfEvaluating(x) {
-				return nil, in.unsure("all?/any? re-evaluates elements")
-			}
 			r, e := in.call(f, x)
 			if e != nil {
 				return nil, e
@@ -720,15 +714,14 @@ func installFunctions(in *Interp, p *Pkg) {
 		pure := func(f *V) bool {
 			return f == nil || (f.Fn.Builtin != nil && f.Fn.Kind == FnFunction && pureBuiltins[f.Fn.Name])
 		}
+		if in.Routes && key == nil && less.Fn.AlwaysRaises && less.Fn.Kind == FnFunction && len(a[1].Elems()) >= 2 {
+			// sorting two or more elements compares at least one pair
+			return in.call(less, a[1].Elems()[0], a[1].Elems()[1])
+		}
 		if !pure(less) || !pure(key) {
 			return nil, in.unsureSort(less, key, a[1])
 		}
 		elems := a[1].Elems()
-		for _, x := range elems {
-			if !selfEvaluating(x) {
-				return nil, in.unsure("stable-sort re-evaluates elements")
-			}
-		}
 		keys := make([]*V, len(elems))
 		for i, x := range elems {
 			keys[i] = x
